@@ -193,6 +193,7 @@ func (srv *Server) Shutdown() error {
 }
 
 func (srv *Server) handleConn(conn net.Conn) {
+	verifYield("srv.handleConn.start", conn)
 	defer srv.wg.Done()
 	logger := srv.logger.With("addr", conn.RemoteAddr())
 	logger.Info("New connection")
